@@ -290,49 +290,53 @@ inductive NodeFault
   | duplicateName | namedBlockInDef | namedBlockInCall | anonBlockInNamespace
   deriving DecidableEq, Repr
 
-/-- **every raise site of mako's compile-time exceptions, by fault class.**  Key: (enclosing function, first 32
-    characters of the message) as regenerated into `Generated.ErrPos.raiseSites`; value: the structural fault class of
+/-- **every raise site of mako's compile-time exceptions, by fault class** – one row per regenerated site, in the
+    order of `Generated.ErrPos.raiseSites` (35 rows; `Props/C11.lean` checks that the keys ARE the regenerated sites).
+    Key: (file, enclosing function, first 32 characters of the message).  The key is unique per site except for the
+    two raises of `_Identifiers.visitBlockTag` ("Named block '%s' not allowed inside of def '%s'" / "… inside of
+    <%%call> tag"), which agree on all three components and on their class; value: the structural fault class of
     the generator (`harness/c11_gen.py`) that plants it, `python` for the one site of `pyparser.parse`, or
     `outside:<reason>` for a site no template text reaches / another property's subject. -/
-def siteClassTable : List ((String × String) × String) := [
-  (("Lexer.parse_until_text", "Expected: %s; unterminated tag o"), "unterminated-construct"),
-  (("Lexer.append_node", "Keyword '%s' not a legal ternary"), "illegal-ternary"),
-  (("Lexer.decode_raw_stream", "Found utf-8 BOM in file, with co"), "outside:encoding of a template given as bytes (C18), position (0,0)"),
-  (("Lexer.decode_raw_stream", "Unicode decode operation of enco"), "outside:encoding of a template given as bytes (C18), position (0,0)"),
-  (("Lexer.parse", "Unclosed tag: <%%%s>"), "unclosed-tag"),
-  (("Lexer.parse", "Unterminated control keyword: '%"), "unterminated-control"),
-  (("Lexer.match_tag_start", "Unclosed tag: <%%%s>"), "unclosed-text-tag"),
-  (("Lexer.match_tag_end", "Closing tag without opening tag:"), "closing-without-opening"),
-  (("Lexer.match_tag_end", "Closing tag </%%%s> does not mat"), "closing-mismatch"),
-  (("Lexer.match_control_line", "Invalid control line: '%s'"), "invalid-control-line"),
-  (("Lexer.match_control_line", "No starting keyword '%s' for '%s"), "no-starting-keyword"),
-  (("Lexer.match_control_line", "Keyword '%s' doesn't match keywo"), "keyword-mismatch"),
-  (("_TagMeta.__call__", "Invalid tag name: '%s'"), "invalid-tag-name"),
-  (("_TagMeta.__call__", "No such tag: '%s'"), "unknown-tag"),
-  (("Tag.__init__", "Missing attribute(s): %s"), "missing-attribute"),
-  (("Tag._parse_attributes", "Attribute '%s' in tag '%s' does "), "attribute-no-expression"),
-  (("Tag._parse_attributes", "Invalid attribute for tag '%s': "), "illegal-attribute"),
-  (("NamespaceTag.__init__", "'name' and/or 'import' attribute"), "namespace-needs-name"),
-  (("NamespaceTag.__init__", "<%namespace> may only have one o"), "namespace-file-and-module"),
-  (("DefTag.__init__", "Missing parenthesis in %def"), "missing-parenthesis"),
-  (("BlockTag.__init__", "%block may not specify an argume"), "block-signature"),
-  (("BlockTag.__init__", "Only named %blocks may specify a"), "anon-block-args"),
-  (("_GenerateRenderMethod.write_namespaces.NSDefVisitor.visitDefOrBase", "Can't put anonymous blocks insid"), "anon-block-in-namespace"),
-  (("_Identifiers._check_name_exists", "%%def or %%block named '%s' alre"), "duplicate-block"),
-  (("_Identifiers._reject_named_blocks.FindNamedBlocks.visitBlockTag", "Named block '%s' not allowed ins"), "named-block-in-def-or-call"),
-  (("_Identifiers.visitBlockTag", "Named block '%s' not allowed ins"), "named-block-in-def-or-call"),
-  (("parse", "(%s) %s (%r)"), "python"),
-  (("visit", "(RecursionError) Python code is "), "deep-nesting"),
-  (("FunctionDecl.get_argument_expressions", "(RecursionError) Python code is "), "deep-nesting"),
-  (("FindIdentifiers.visit_ImportFrom", "'import *' is not supported, sin"), "import-star"),
-  (("PythonFragment.__init__", "Fragment '%s' is not a partial c"), "fragment-not-partial"),
-  (("PythonFragment.__init__", "Unsupported control keyword: '%s"), "unsupported-keyword"),
-  (("FunctionDecl.__init__", "Code '%s' is not a function decl"), "outside:unreachable - the code parsed always begins with 'def '"),
-  (("FunctionDecl.__init__", "'**%s' keyword argument not allo"), "outside:unreachable - no caller passes allow_kwargs=False")]
+def siteClassTable : List ((String × String × String) × String) := [
+  (("mako/lexer.py", "Lexer.parse_until_text", "Expected: %s; unterminated tag o"), "unterminated-construct"),
+  (("mako/lexer.py", "Lexer.append_node", "Keyword '%s' not a legal ternary"), "illegal-ternary"),
+  (("mako/lexer.py", "Lexer.decode_raw_stream", "Found utf-8 BOM in file, with co"), "outside:encoding of a template given as bytes (C18), position (0,0)"),
+  (("mako/lexer.py", "Lexer.decode_raw_stream", "Unicode decode operation of enco"), "outside:encoding of a template given as bytes (C18), position (0,0)"),
+  (("mako/lexer.py", "Lexer.parse", "Unclosed tag: <%%%s>"), "unclosed-tag"),
+  (("mako/lexer.py", "Lexer.parse", "Unterminated control keyword: '%"), "unterminated-control"),
+  (("mako/lexer.py", "Lexer.match_tag_start", "Unclosed tag: <%%%s>"), "unclosed-text-tag"),
+  (("mako/lexer.py", "Lexer.match_tag_end", "Closing tag without opening tag:"), "closing-without-opening"),
+  (("mako/lexer.py", "Lexer.match_tag_end", "Closing tag </%%%s> does not mat"), "closing-mismatch"),
+  (("mako/lexer.py", "Lexer.match_control_line", "Invalid control line: '%s'"), "invalid-control-line"),
+  (("mako/lexer.py", "Lexer.match_control_line", "No starting keyword '%s' for '%s"), "no-starting-keyword"),
+  (("mako/lexer.py", "Lexer.match_control_line", "Keyword '%s' doesn't match keywo"), "keyword-mismatch"),
+  (("mako/parsetree.py", "_TagMeta.__call__", "Invalid tag name: '%s'"), "invalid-tag-name"),
+  (("mako/parsetree.py", "_TagMeta.__call__", "No such tag: '%s'"), "unknown-tag"),
+  (("mako/parsetree.py", "Tag.__init__", "Missing attribute(s): %s"), "missing-attribute"),
+  (("mako/parsetree.py", "Tag._parse_attributes", "Attribute '%s' in tag '%s' does "), "attribute-no-expression"),
+  (("mako/parsetree.py", "Tag._parse_attributes", "Invalid attribute for tag '%s': "), "illegal-attribute"),
+  (("mako/parsetree.py", "NamespaceTag.__init__", "'name' and/or 'import' attribute"), "namespace-needs-name"),
+  (("mako/parsetree.py", "NamespaceTag.__init__", "<%namespace> may only have one o"), "namespace-file-and-module"),
+  (("mako/parsetree.py", "DefTag.__init__", "Missing parenthesis in %def"), "missing-parenthesis"),
+  (("mako/parsetree.py", "BlockTag.__init__", "%block may not specify an argume"), "block-signature"),
+  (("mako/parsetree.py", "BlockTag.__init__", "Only named %blocks may specify a"), "anon-block-args"),
+  (("mako/codegen.py", "_GenerateRenderMethod.write_namespaces.NSDefVisitor.visitDefOrBase", "Can't put anonymous blocks insid"), "anon-block-in-namespace"),
+  (("mako/codegen.py", "_Identifiers._check_name_exists", "%%def or %%block named '%s' alre"), "duplicate-block"),
+  (("mako/codegen.py", "_Identifiers._reject_named_blocks.FindNamedBlocks.visitBlockTag", "Named block '%s' not allowed ins"), "named-block-in-def-or-call"),
+  (("mako/codegen.py", "_Identifiers.visitBlockTag", "Named block '%s' not allowed ins"), "named-block-in-def-or-call"),
+  (("mako/codegen.py", "_Identifiers.visitBlockTag", "Named block '%s' not allowed ins"), "named-block-in-def-or-call"),
+  (("mako/pyparser.py", "parse", "(%s) %s (%r)"), "python"),
+  (("mako/pyparser.py", "visit", "(RecursionError) Python code is "), "deep-nesting"),
+  (("mako/pyparser.py", "FindIdentifiers.visit_ImportFrom", "'import *' is not supported, sin"), "import-star"),
+  (("mako/ast.py", "PythonFragment.__init__", "Fragment '%s' is not a partial c"), "fragment-not-partial"),
+  (("mako/ast.py", "PythonFragment.__init__", "Unsupported control keyword: '%s"), "unsupported-keyword"),
+  (("mako/ast.py", "FunctionDecl.__init__", "Code '%s' is not a function decl"), "outside:unreachable - the code parsed always begins with 'def '"),
+  (("mako/ast.py", "FunctionDecl.__init__", "'**%s' keyword argument not allo"), "outside:unreachable - no caller passes allow_kwargs=False"),
+  (("mako/ast.py", "FunctionDecl.get_argument_expressions", "(RecursionError) Python code is "), "deep-nesting")]
 
 /-- the fault class of a regenerated raise site `(file, function, message prefix, coordinates)` -/
 def siteClass (site : String × String × String × String) : Option String :=
-  (siteClassTable.find? fun e => e.1.1 == site.2.1 && e.1.2 == site.2.2.1).map (·.2)
+  (siteClassTable.find? fun e => e.1.1 == site.1 && e.1.2.1 == site.2.1 && e.1.2.2 == site.2.2.1).map (·.2)
 
 /-- the coordinates of a raise site belong to the node the raising function is about (its `self` or one of its
     own parameters), possibly adjusted – never to a variable of an enclosing function -/
